@@ -428,6 +428,7 @@ def collect(run, options: dict, label: str, kinds: typing.Tuple[str, ...]):
         eng.contracts[spec.c_type_name(tt) + "_serialize_"] = serialize_contract(binder, tt, None)
         eng.contracts[spec.c_type_name(tt) + "_deserialize_"] = deserialize_contract(binder, tt)
     _STATE.update(eng=eng, binder=binder, by=by)
+    _WCACHE.clear()
     tasks = []
     for nm, t in sorted(by.items()):
         if "ser" in kinds:
@@ -475,18 +476,32 @@ def report_failures(run, results, label):
         seen.add(base)
         if r.status != "sat":
             continue  # unknown: stays undecided (handled by Run.finish)
+        wkey = (r.ob.function, r.ob.meta.get("type"))
+        if wkey in _WCACHE:
+            w = _WCACHE[wkey]
+            _emit(run, R, base, r, w)
+            continue
         w = None
         try:
             from contracts import pp_ref
-            w = pp_ref.witness(r.ob.function, r.ob.meta.get("type"), _STATE.get("workdir"), r.model)
+            # bounded native search on the real generated C of the same rendering, next to an independent reference codec
+            w = None if _STATE.get("override") else pp_ref.witness(r.ob.function, r.ob.meta.get("type"), _STATE.get("workdir"), r.model, _STATE.get("by"))
         except Exception as ex:  # the replay harness must never become a verdict
             w = {"harness_error": f"{type(ex).__name__}: {ex}"}
-        if w and not w.get("harness_error"):
-            run.fail(R.Failure(base, r.ob.kind, f"{r.ob.name} not discharged (sat); real generated code on {w['input']}: {w['why']}",
-                               {"witness": w, "model": r.model, "smt2": r.ob.smt2()}, True))
-        else:
-            run.fail(R.Failure(base, r.ob.kind, f"{r.ob.name} not discharged (sat); model {dict(list(r.model.items())[:8])}",
-                               {"model": r.model, "replay_harness": w, "smt2": r.ob.smt2()}, False))
+        _WCACHE[wkey] = w
+        _emit(run, R, base, r, w)
+
+
+_WCACHE: typing.Dict[typing.Any, typing.Any] = {}
+
+
+def _emit(run, R, base, r, w):
+    if w and not w.get("harness_error"):
+        run.fail(R.Failure(base, r.ob.kind, f"{r.ob.name} not discharged (sat); real generated code on {str(w['input'])[:300]}: {w['why'][:400]}",
+                           {"witness": w, "model": r.model, "smt2": r.ob.smt2()}, True))
+    else:
+        run.fail(R.Failure(base, r.ob.kind, f"{r.ob.name} not discharged (sat); model {dict(list(r.model.items())[:8])}",
+                           {"model": r.model, "replay_harness": w, "smt2": r.ob.smt2()}, False))
 
 
 # ------------------------------------------------------------------------------------------------------------------
